@@ -483,3 +483,66 @@ func stringSliceResults(fn *ssa.Function) (out []string, why string) {
 	}
 	return out, ""
 }
+
+// constSetRefined is constSet with one refinement: when a phi receives value w from a predecessor
+// whose branch established  w != k  on that edge, the constant k is not counted for w.
+func constSetRefined(v ssa.Value) (vals []constant.Value, ok bool) {
+	ok = true
+	type key struct {
+		v ssa.Value
+		x string
+	}
+	seen := map[key]bool{}
+	var rec func(v ssa.Value, excl []constant.Value)
+	rec = func(v ssa.Value, excl []constant.Value) {
+		k := key{v, fmt.Sprint(excl)}
+		if seen[k] {
+			return
+		}
+		seen[k] = true
+		switch x := v.(type) {
+		case *ssa.Const:
+			for _, e := range excl {
+				if e != nil && x.Value != nil && constant.Compare(e, token.EQL, x.Value) {
+					return
+				}
+			}
+			vals = append(vals, x.Value)
+		case *ssa.Phi:
+			for i, e := range x.Edges {
+				ex := excl
+				pred := x.Block().Preds[i]
+				if ifi := blockIf(pred); ifi != nil {
+					if b, isB := ifi.Cond.(*ssa.BinOp); isB && (b.Op == token.EQL || b.Op == token.NEQ) {
+						var other ssa.Value
+						if b.X == e {
+							other = b.Y
+						} else if b.Y == e {
+							other = b.X
+						}
+						if c, isC := other.(*ssa.Const); isC && c.Value != nil {
+							// which successor is the phi's block?
+							for si, sb := range pred.Succs {
+								if sb == x.Block() && pred.Succs[1-si] != x.Block() {
+									neq := (b.Op == token.NEQ) == (si == 0)
+									if neq {
+										ex = append(append([]constant.Value{}, excl...), c.Value)
+									}
+								}
+							}
+						}
+					}
+				}
+				rec(e, ex)
+			}
+		case *ssa.Convert:
+			rec(x.X, excl)
+		case *ssa.ChangeType:
+			rec(x.X, excl)
+		default:
+			ok = false
+		}
+	}
+	rec(v, nil)
+	return
+}
